@@ -158,6 +158,57 @@ class Bisync:
             res = cur
         return res + (os_,)
 
+    # ---- the conflict winner: one ordered comparison of the two sides' digests; everything after it is read per edge
+    def fp_side(self, os_):
+        """replica side ('a'/'b') of fingerprint-valued origins: looked up with rel in that side's scan; '?' otherwise"""
+        fl = self.afl
+        sides = set()
+        for o in os_:
+            if o.kind == 'comb':
+                continue
+            if o.kind == 'call' and o.key.endswith('::get'):
+                m = call_arg_origins(fl, o.bb, 0)
+                k = call_arg_origins(fl, o.bb, 1)
+                if self.is_param(k, 'rel') and self.is_param(m, 'a'):
+                    sides.add('a')
+                elif self.is_param(k, 'rel') and self.is_param(m, 'b'):
+                    sides.add('b')
+                else:
+                    sides.add('?')
+            else:
+                sides.add('?')
+        return sides
+
+    def digest_order(self):
+        """[(call block, side of first operand, side of second operand, method)] for `x.blake3 <op> y.blake3` over the two scans"""
+        fl = self.afl
+        out = []
+        for gb, gt in fl.calls(lambda c: c.startswith('std::cmp::PartialOrd::')):
+            o0, o1 = fl.origins(gt['args'][0]), fl.origins(gt['args'][1])
+            if not all(tuple(o.path)[-1:] == ('blake3',) for o in o0 | o1 if o.kind != 'comb'):
+                continue
+            s0, s1 = self.fp_side(o0), self.fp_side(o1)
+            if len(s0) == 1 and len(s1) == 1 and s0 != s1 and '?' not in s0 | s1:
+                out.append((gb, list(s0)[0], list(s1)[0], callee(gt).split('::')[-1]))
+        return out
+
+    def winner_views(self):
+        """[(label, side that wins by the comparison, blocks to ignore)] - one view per outcome of the digest comparison: the
+        values after it (whatever they are kept in: a tuple, two structs, plain variables) are read with the definitions of
+        the other outcome left out"""
+        fl = self.afl
+        d = self.digest_order()
+        if len(d) != 1:
+            return None
+        gb, first, second, meth = d[0]
+        oc = fl.outcomes(gb)
+        t_e, f_e = oc.get('true', set()), oc.get('false', set())
+        if not t_e or not f_e:
+            return None
+        win_true = first if meth in ('ge', 'gt') else second
+        win_false = second if win_true == first else first
+        return [('true', win_true, fl.only_through(f_e) - fl.only_through(t_e)), ('false', win_false, fl.only_through(t_e) - fl.only_through(f_e))]
+
     def copy_sites(self):
         """[(bb, term, src_class, dst_class)] of copy_atomic calls in apply."""
         out = []
